@@ -113,35 +113,57 @@ def zero_substitution(rec):
 
 def approx_paths(run, fallback=None, max_paths=32, records=None, zero_symbols=()):
     """run(oracle) -> result.  Returns [(decisions, result, InterpRaise or None)], one entry per combination of outcomes of
-    the tolerance predicates met; any other undetermined branch goes to `fallback` (None: analysis error)."""
-    ex = Explorer(max_paths=max_paths)
+    the tolerance predicates met; any other undetermined branch goes to `fallback` (None: analysis error).
 
-    def body(oracle):
-        rec = []
-        if records is not None:
-            records.append(rec)           # records[i] belongs to paths[i]: (undetermined value, truth of its un-negated form)
+    Truthiness of a quantity that is linear in one of `zero_symbols` (`if not x0:`, `x0 or default`) is explored by
+    hypothesis: one set of runs in which no such quantity is zero, and one set per distinct quantity q met in which exactly
+    q == 0 holds (the others are non-zero: distinct quantities of generic inputs do not vanish together).  The records of
+    a path carry the substitution that makes its hypothesis true, so the rule can judge the path for such inputs."""
+    hyps = [None]
+    seen = set()
+    all_paths = []
+    k = 0
+    while k < len(hyps):
+        hyp = hyps[k]
+        k += 1
+        ex = Explorer(max_paths=max_paths)
+        local_records = []
 
-        def o(interp, node, fr, value):
-            if has_approx(value):
-                r = oracle(interp, node, fr, value)
-                neg, e = False, value
-                while isinstance(e, Unk) and isinstance(e.expr, tuple) and e.expr[:1] == ('not',):
-                    neg, e = not neg, Unk(e.expr[1])
-                rec.append((e, r != neg))
-                return r
-            lin = linear_in(value, zero_symbols)
-            if lin is not None:
-                # truthiness of an input quantity (`if not x0:`, `x0 = x0 or ...`): both `== 0` and `!= 0` are inputs; the
-                # outcome is recorded with the substitution that makes the quantity zero, so that the rule can judge the
-                # `== 0` side under that hypothesis
-                sym, expr = lin
-                r = oracle(interp, node, fr, Unk(('fn', 'nonzero', repr(value))))
-                rec.append((('zero', sym, expr), not r))
-                return r
-            return fallback(interp, node, fr, value) if fallback is not None else None
-        return run(o)
-    ex.run(body)
-    return ex.paths
+        def body(oracle, hyp=hyp, local_records=local_records):
+            rec = []
+            local_records.append(rec)     # records[i] belongs to paths[i]: (undetermined value, truth of its un-negated form)
+
+            def o(interp, node, fr, value):
+                if has_approx(value):
+                    r = oracle(interp, node, fr, value)
+                    neg, e = False, value
+                    while isinstance(e, Unk) and isinstance(e.expr, tuple) and e.expr[:1] == ('not',):
+                        neg, e = not neg, Unk(e.expr[1])
+                    rec.append((e, r != neg))
+                    return r
+                lin = linear_in(value, zero_symbols)
+                if lin is not None:
+                    key = (lin[0], repr(lin[1]))
+                    if key not in seen:
+                        seen.add(key)
+                        hyps.append(key + (lin[1],))
+                    is_zero = hyp is not None and key == hyp[:2]
+                    if is_zero and not any(isinstance(v, tuple) and v[:1] == ('zero',) for v, _ in rec):
+                        rec.append((('zero', lin[0], lin[1]), True))
+                    return not is_zero
+                return fallback(interp, node, fr, value) if fallback is not None else None
+            return run(o)
+        ex.run(body)
+        for (decisions, res, exc), rec in zip(ex.paths, local_records):
+            if hyp is not None:
+                decisions = list(decisions) + [(True, '%s == 0' % hyp[0] if hyp[1] == '0' else '%s == %s' % hyp[:2], '', frozenset())]
+            all_paths.append((decisions, res, exc))
+            if records is not None:
+                records.append(rec)
+        if len(all_paths) > 4 * max_paths:
+            from .srcmodel import AnalysisError
+            raise AnalysisError('more than %d paths through undetermined predicates' % (4 * max_paths))
+    return all_paths
 
 
 def path_text(decisions):
